@@ -367,12 +367,19 @@ static void run_product(int kn, unsigned row, unsigned inner, unsigned col, int 
         vf_log("%s X=%s Y=%s", call, fmt_mat(bx, sizeof(bx), X, xr, xc), fmt_mat(by, sizeof(by), Y, yr, yc));
     }
     else { vf_log("%s X[0]=%.17g Y[0]=%.17g", call, X[0], Y[0]); }
-    switch (kn)
     {
-    case KN_MULMM: a_real_mulmm(row, inner, col, X, Y, Z.p); break;
-    case KN_MULTM: a_real_mulTm(inner, row, col, X, Y, Z.p); break;
-    case KN_MULMT: a_real_mulmT(row, col, inner, X, Y, Z.p); break;
-    default: a_real_mulTT(row, inner, col, X, Y, Z.p); break;
+        /* one call in four: both const operands in storage that cannot be written while the routine runs (see vf_common.h, read-only operands) */
+        int const ro = vf_ro_pick(4);
+        double const *Xc = ro ? (double const *)vf_ro_dup(X, nx * sizeof(double)) : X, *Yc = ro ? (double const *)vf_ro_dup(Y, ny * sizeof(double)) : Y;
+        if (ro) { VF_COUNT("const-operands-in-read-only-storage"); vf_log("(both operands in PROT_READ mappings)"); }
+        switch (kn)
+        {
+        case KN_MULMM: a_real_mulmm(row, inner, col, Xc, Yc, Z.p); break;
+        case KN_MULTM: a_real_mulTm(inner, row, col, Xc, Yc, Z.p); break;
+        case KN_MULMT: a_real_mulmT(row, col, inner, Xc, Yc, Z.p); break;
+        default: a_real_mulTT(row, inner, col, Xc, Yc, Z.p); break;
+        }
+        if (ro) { vf_ro_free((void *)(uintptr_t)Xc, nx * sizeof(double)); vf_ro_free((void *)(uintptr_t)Yc, ny * sizeof(double)); }
     }
     judge(kn, cls, &Z, ref, row, col, call, "entry-ne-exact-product");
     judge_input(kn, cls, "X", X, Xs, nx, call);
